@@ -373,6 +373,46 @@ def dcm_log(chk, prog):
     chk.ob("LOG", f.ref, "log(R)^T == -log(R) and |log R|_F^2 == 2 t^2 (generic arm)", law, module=DCM, function="DCM.log", construct="matrix logarithm", line=f.node.lineno)
     band_rule(chk, f, "C10", 1e-3, "the logarithm must be correct for every rotation angle, including below 1e-3 rad")
     log_arms(chk, prog, f, q, R)
+    log_samples(chk, prog, f, q, R)
+
+
+LOG_SAMPLES = [(t, ax) for t in (1e-4, 0.3, 1.2, 2.2, 3.0, 3.1405) for ax in ((0.36, 0.48, 0.8), (-0.36, -0.48, -0.8), (0.6, -0.8, 0.0), (0.0, -1.0, 0.0), (-0.8, 0.0, 0.6), (0.1, 0.2, -0.9746794344808963))]
+
+
+def log_samples(chk, prog, f, q, R, tol=1e-6):
+    """LOG.sample: DCM.log is interpreted along the one decision path each sample rotation takes (pivot choices of a quaternion route, series / near-pi arms ...):
+    the closed form of that path, evaluated at the sample, must be theta/(2 sin theta) (R - R^T) with theta = arccos((tr R - 1)/2).  Angles from 1e-4 to
+    pi - 1e-3, axes with positive and with negative dominant components."""
+    import math
+    from sa.lib import sample_oracle
+    qn = [str(x) for x in q]
+    signs = []
+    for t, ax in LOG_SAMPLES:
+        nrm = math.sqrt(sum(a * a for a in ax))
+        vals = {qn[0]: math.cos(t / 2), qn[1]: math.sin(t / 2) * ax[0] / nrm, qn[2]: math.sin(t / 2) * ax[1] / nrm, qn[3]: math.sin(t / 2) * ax[2] / nrm}
+
+        def law(t=t, vals=vals):
+            it = Interp(prog, oracle=sample_oracle(vals))
+            L = to_obj(it.getattr(it.make_obj(DCM + "::DCM", data=R, A=R), "log", None))
+            val = lambda at: math.pi if at.name == "pi" else vals[at.name]
+            Rn = np.array([[P.evalf(x if isinstance(x, P.Rat) else P._to_rat(x), val) for x in row] for row in R])
+            th = math.acos(max(-1.0, min(1.0, (Rn.trace() - 1) / 2)))
+            want = th / (2 * math.sin(th)) * (Rn - Rn.T) if th > 1e-12 else np.zeros((3, 3))
+            got = np.array([[P.evalf(x if isinstance(x, P.Rat) else P._to_rat(x), val) for x in row] for row in L])
+            ref = float(np.linalg.norm(want))
+            e_plus, e_minus = float(np.linalg.norm(got - want)), float(np.linalg.norm(got + want))
+            sign = 1 if e_plus <= e_minus else -1          # the property fixes skew-symmetry and magnitude; the orientation convention only has to be ONE convention
+            err = min(e_plus, e_minus)
+            if err <= tol * max(ref, 1e-12) or err <= 1e-9:
+                if ref > 1e-9:
+                    if signs and signs[0][0] != sign:
+                        return (False, "at the rotation by %.4g rad the logarithm has the opposite orientation (sign) to the one returned at %.4g rad" % (t, signs[0][1]), None)
+                    signs.append((sign, t))
+                return True
+            return (False, "at the rotation by %.4g rad about (%.2f, %.2f, %.2f) the decision path of DCM.log gives a logarithm of Frobenius norm %.6g, expected sqrt(2)*angle = %.6g "
+                           "(difference %.3g)" % (t, ax[0] / nrm, ax[1] / nrm, ax[2] / nrm, float(np.linalg.norm(got)), ref, err), None)
+        chk.ob("LOG.sample", "%s::t=%.4g,axis=%s" % (f.ref, t, ax), "closed form of the path taken by this rotation equals theta/(2 sin theta)(R - R^T) there", law,
+               module=DCM, function="DCM.log", construct="logarithm on the path of a sample rotation", line=f.node.lineno)
 
 
 def log_arms(chk, prog, f, q, R, tol=1e-6):
